@@ -46,6 +46,14 @@ def family():
                 for wn, w in writers.items():
                     progs.append(("%s_%s_%s_%s" % (tag, "c" if cache else "n", rn, wn),
                                   {"cfg": cfg, "keys": ["k1", "k2"], "init": init, "threads": [r, w]}))
+            # the key's current generation is DEFERRED (TTL-only update of an offloaded value, not yet
+            # flushed): readers are served from the predecessor's extent while the flush writes the new
+            # generation, retires the predecessor and another key reuses its blocks
+            dinit = init + [{"op": "update_ttl", "k": 1, "ttlv": 90}]
+            for rn in ("get", "range", "cas"):
+                progs.append(("deferred_%s_%s_%s" % (tag, "c" if cache else "n", rn),
+                              {"cfg": cfg, "keys": ["k1", "k2"], "init": dinit,
+                               "threads": [readers[rn], [{"op": "flush"}, {"op": "insert", "k": 2, "v": vb}, {"op": "flush"}]]}))
         # counters: increment reads the offloaded value
         init = [{"op": "insert", "k": 1, "v": CTR, "auto": False, "tsv": NOW - 10 * E9}, {"op": "flush"}]
         progs.append(("incr_%s" % ("c" if cache else "n"),
@@ -69,7 +77,7 @@ def run(tier, seed):
     fam = family()
     if tier == "quick":
         rng.shuffle(fam)
-        fam = fam[:16]
+        fam = [x for x in fam if x[0].startswith("deferred_")] + [x for x in fam if not x[0].startswith("deferred_")][:14]
     groups = [fam[i:i + 2] for i in range(0, len(fam), 2)]
     shm = v.shm_dir("c08")
 
